@@ -1392,6 +1392,9 @@ class SVG:
             self.remove_unpainted_shapes(inplace=True)
             if not self._remove_redundant_groups():
                 break
+        # the dropped shapes may have been the only users of a gradient
+        self._remove_orphaned_gradients()
+        self.elements = None  # force elements to reload
 
         violations = self.checkpicosvg(
             allow_text=allow_text, drop_unsupported=drop_unsupported
